@@ -9,7 +9,8 @@ package thrift
 // comma-separated list of signed decimal numbers) on the real code when such an
 // obligation fails, and (b) checks the composition zigzag o varint through the public
 // WriteI16/I32/I64 - ReadI16/I32/I64 on boundary values (every power of two +-1 and its
-// negation) and 20000 pseudo-random values (seed VERIF_SEED).  Prints DRIVER-FAIL lines.
+// negation) and 20000 pseudo-random values (seed VERIF_SEED), and WriteString/ReadString on
+// every length 0..300, the varint boundaries and the models' lengths.  Prints DRIVER-FAIL lines.
 
 import (
 	"fmt"
@@ -88,6 +89,32 @@ func TestVerifDriverC16(t *testing.T) {
 		p.WriteI16(v16)
 		if r, err := p.ReadI16(); err != nil || r != v16 || buf.Len() != 0 {
 			fail("I16 round trip of %d: read %d err %v, %d left unread", v16, r, err, buf.Len())
+		}
+	}
+	// strings: the length prefix and the bytes (model values are lengths here)
+	var lens []int
+	for _, v := range vals[:nModel] {
+		if v >= 0 && v <= 1<<24 {
+			lens = append(lens, int(v))
+		}
+	}
+	for l := 0; l <= 300; l++ {
+		lens = append(lens, l)
+	}
+	lens = append(lens, 16383, 16384, 16385, 2097151, 2097152, 2097153)
+	for _, l := range lens {
+		b := make([]byte, l)
+		for i := range b {
+			b[i] = byte(rng.Intn(256))
+		}
+		str := string(b)
+		buf.Reset()
+		if err := p.WriteString(str); err != nil {
+			fail("WriteString of %d bytes: %v", l, err)
+		}
+		r, err := p.ReadString()
+		if err != nil || r != str || buf.Len() != 0 {
+			fail("string round trip of %d bytes: read %d bytes, err %v, %d left unread", l, len(r), err, buf.Len())
 		}
 	}
 	if fails > 0 {
